@@ -44,3 +44,27 @@ int good_counttable (P *p, int n1, int n2)
 	if (n2 > 100) { count = n2 ; free (tab) ; tab = calloc (count, sizeof (short)) ; }
 	return use_table (tab, 3, count) ;
 }
+
+float bad_shift (const unsigned char *c)
+{	int e = ((c [3] & 0x7F) << 1) | ((c [2] & 0x80) ? 1 : 0) ;
+	float v = 1.0f ;
+	e -= 127 ;
+	if (e > 0)
+		v *= (float) (1ULL << e) ;		/* e up to 128: beyond the 64-bit operand */
+	return v ;
+}
+float good_shift (const unsigned char *c)
+{	int e = (c [3] & 0x3F) ;
+	float v = 1.0f ;
+	if (e > 0)
+		v *= (float) (1ULL << e) ;
+	return v ;
+}
+
+void bad_ptrscale (int *block, int blocksize, int k)
+{	memset (block + k, 0, blocksize - k) ;
+}
+void good_ptrscale (int *block, int blocksize, int k)
+{	memset (((char *) block) + k, 0, blocksize - k) ;
+	memset (block + k, 0, (blocksize - k) * sizeof (int)) ;
+}
